@@ -102,6 +102,50 @@ CLAIMED.update({
         design="7/C20", note=STORE_NOTE + " Serialised output (save/load marker mapping order) and multi-storage join order belong to domains outside the World model and rest on the run-vs-run comparison of their harnesses when present (C06/C14 domains); "
              "cross-storage drop order at world teardown is not seeded in the model (within-store order is)."),
 })
+SL_NOTE = ("Theorems are about the hand-written Lean model lean/SpecsModel/SaveLoad/Model.lean (on top of Model/Entity.lean), tied to /repo's working tree by the differential run only (corpus + seeded random "
+           "round-trip worlds and histories, two worlds exchanging data). Trusted: Lean kernel, axioms propext/Classical.choice/Quot.sound, the harness, the line protocol, bin/check; serde, serde_json and ron round-trip "
+           "the EntityData sequence (the harness re-parses produced text with serde only); the ConvertSaveload derive generates the per-field conversions the model assumes (C18); HashMap order is never observed "
+           "(mapping read only through lookups; dumps sorted). The model's allocator is SimpleMarkerAllocator; UuidMarkerAllocator differs only in the choice of fresh ids (random, assumed never to repeat) and is covered "
+           "by the correspondence check with uuids renamed by first appearance. Marker ids and indices unbounded in the model (u64 counter overflow out of scope; indices < 2^24). No forged handles; markers are removed "
+           "only by deleting the entity.")
+CLAIMED.update({
+    "C04": dict(
+        text="Lean theorems: a representation relation Rep between every storage kind (vec with uninitialised slots, dense with its three tables, default-filled vec, hash map, B-tree, null, both tracking wrappers) and a plain "
+             "partial map, preserved by every UnprotectedStorage function under exactly the preconditions the mask provides (StoreRep: get_ok, insert_ok, poke_ok, remove_ok incl. the dense swap_remove + redirect, clean_ok); "
+             "every Storage API function refines the map operation for arbitrary allocator states and handles (C04.get_refines ... getMutOrDefault_refines, entry in all 3x3 cases, drain, clear, dropAll) and never reaches "
+             "panic/ub; sequence_refines: for every kind, every allocator and EVERY op list the model's result list equals the plain map's and the final state represents the final map; slice laws slice_vec / slice_dvec "
+             "(default elsewhere) / slice_dense (List.Perm of the stored values) and their harness-level forms; clear_after_sequence. Correspondence: random histories over all 12 kind/wrapper combinations incl. far-apart "
+             "indices (63/64, 4095/4096), bounded-exhaustive per-kind alphabets; the abstract WorldSpec monitor IS a plain map per storage and checks every result, mask, count, slice on the implementation's transcript.",
+        technique="Lean 4 proof (representation invariant per storage kind + refinement to a plain map, induction over op sequences) on a hand-written model + differential correspondence check + executable map monitor",
+        design="7/C04", note=STORE_NOTE + " Values stored in the null kind are the unit value 0 (valOk side condition, the only hypothesis of the sequence theorem)."),
+    "C05": dict(
+        text="Lean theorems: reachable_invariant — every world reachable by ANY op list (all creation/deletion paths, failing and repeating batches, delete_all, maintain with arbitrarily nested lazily executed scripts, "
+             "registration of any kind by any of the three paths at any time, all storage API ops, restricted joins, drop_world) and any fuel satisfies WInv: allocator coupled to the entity timeline, every storage well "
+             "formed (so no op panics), every storage is in the meta table that delete_components walks, and a component exists only at an index occupied by a not-dead entity (components_only_at_occupied, "
+             "every_storage_in_table); deletion_purges_everywhere (after delete_entities, incl. failure part-way, no storage holds a component of a killed handle); maintain_purges_before_queue; new_entity_starts_empty "
+             "(any creation path, reused index or not, merged or not); untouched_entities_keep_components (frame). Correspondence: histories over up to 12 storages registered by random paths at random times, masks of all "
+             "storages dumped after every mutating op; monitor: no mask bit at an index of no not-dead entity, map contents unchanged for others.",
+        technique="Lean 4 proof (world invariant preserved by every operation, mutual induction over the fuel of the maintain/lazy-script recursion) on a hand-written model + differential correspondence check + executable monitor",
+        design="7/C05", note=STORE_NOTE),
+    "C14": dict(
+        text="Lean theorems C14.roundtrip / serialize_succeeds_iff / serialize_records / roundtrip_recursive / recursive_fails_only_on_dead: for the world reached by every history (any entities, any subset marked, any "
+             "components, arbitrary reference graphs incl. self loops, cycles, forward references, dead and stale handles) serialize succeeds exactly when every entity referenced by a marked entity is marked, writes one "
+             "record per marked entity in join order, and loading the records in ANY order into an empty world yields a world whose entities are exactly the images under phi (= the entity carrying the same marker id) of "
+             "the marked source entities: phi preserves markers, is injective and onto, component types are present iff present in the source with equal values and entity fields mapped through phi, entity counts agree. "
+             "serialize_recursive marks exactly the reference closure, changes nothing else, and the same round trip holds. The same statements run as an executable monitor on the implementation's roundtrip transcripts "
+             "(SimpleMarker and UuidMarker, JSON and RON) and the model is compared line by line with the real crate.",
+        technique="Lean 4 proof (invariant + step-wise functional specification of deserialize / serialize / the recursive work list) on a hand-written model; differential correspondence check + executable bijection monitor",
+        design="7/C14", note=SL_NOTE),
+    "C15": dict(
+        text="Lean theorems C15.marker_invariant / mapping_stale_or_right / markers_unique / only_serialisers_panic / mark_marked / mark_unmarked / deserialize_merges / reload_creates_nothing: after every history of create / "
+             "component writes / mark / delete (all paths incl. failing batches) / maintain / allocator.maintain / serialize / serialize_recursive / deserialize of arbitrary data (own, foreign, repeated, duplicate markers, "
+             "dangling references, ids above the counter) every marker id carried by a not-dead entity is below the allocator's counter, carried by no other not-dead entity, and mapped to that entity; a mapping entry "
+             "naming a not-dead entity is never wrong (only stale); mark on a marked entity returns its marker and changes nothing; deserialize keeps every known id on its entity, creates exactly one entity per unknown "
+             "mentioned id and none otherwise, leaves the carrier of each record id with exactly the record's components (absent types removed), and a repeated load creates nothing. The uniqueness / merge / mark monitors "
+             "run on the implementation's transcripts and the model is compared line by line (dump of join, allocator counter and mapping, component masks after every step).",
+        technique="Lean 4 proof (inductive invariant over all histories + functional specification of retrieve_entity / deserialize) on a hand-written model; differential correspondence check + executable uniqueness/merge/mark monitors",
+        design="7/C15", note=SL_NOTE + " Out of the property's quantifier and not claimed: removing a marker component directly from a live entity."),
+})
 checks = []
 for pid in ALL:
     if pid in CLAIMED:
